@@ -425,28 +425,36 @@ section Stages
 open Model.Preprocess Lemmas.Preprocess
 
 /-- DISTINCT is chosen only for "the first row of each group", without a sort, when the partition is - as a set - the
-frame the pass looks at -/
-theorem distinct_only_for_first_row_of_whole_frame (cfg : Cfg) (frame : List CId) (s e : Option Int) (partition : List CId)
-    (sort : List CS) (h : distinctChoice cfg frame s e partition sort = .distinct) :
-    s.getD 1 = 1 ∧ e = some 1 ∧ sort = [] ∧ sameElements frame partition = true := by
+frame the pipeline ends with AND nothing after the take reads a column outside of the partition -/
+theorem distinct_only_for_first_row_of_whole_frame (cfg : Cfg) (frame : List CId) (laterOk : Bool) (s e : Option Int)
+    (partition : List CId) (sort : List CS) (h : distinctChoice cfg frame laterOk s e partition sort = .distinct) :
+    s.getD 1 = 1 ∧ e = some 1 ∧ sort = [] ∧ sameElements frame partition = true ∧ laterOk = true := by
   unfold distinctChoice at h
   dsimp only at h
-  by_cases hc : (s.getD 1 == 1 && e == some 1 && sort.isEmpty && sameElements frame partition) = true
+  by_cases hc : (s.getD 1 == 1 && e == some 1 && sort.isEmpty && (sameElements frame partition && laterOk)) = true
   · simp only [Bool.and_eq_true, beq_iff_eq, List.isEmpty_iff] at hc
-    exact ⟨hc.1.1.1, hc.1.1.2, hc.1.2, hc.2⟩
+    exact ⟨hc.1.1.1, hc.1.1.2, hc.1.2, hc.2.1, hc.2.2⟩
   · rw [if_neg hc] at h
     by_cases h2 : (cfg.supportsDistinctOn && e == some 1) = true
     · rw [if_pos h2] at h; cases h
     · rw [if_neg h2] at h; cases h
 
+/-- ... where "nothing after the take reads outside of the partition" means: every column id a later transform mentions is a
+partition column, a column a later Compute defines, or a column a later Join brings in -/
+theorem later_transforms_read_only_the_partition (partition : List CId) (rest : List (Model.Preprocess.Tr × Info))
+    (h : readsOnly partition rest = true) :
+    ∀ ti ∈ rest, ∀ rs, ti.2.reads = some rs → ∀ c ∈ rs,
+      c ∈ partition ∨ (∃ tj ∈ rest, tj.2.defines = some c) ∨ (∃ tj ∈ rest, ∃ sd cols f, tj.1 = .join sd cols f ∧ c ∈ cols) :=
+  readsOnly_spec partition rest h
+
 /-- DISTINCT ON is chosen only on a dialect that has it and only when one row per group is asked for; in every other case
 the take becomes a filter on ROW_NUMBER() -/
-theorem distinct_on_only_for_one_row (cfg : Cfg) (frame : List CId) (s e : Option Int) (partition : List CId)
-    (sort : List CS) (h : distinctChoice cfg frame s e partition sort = .distinctOn) :
+theorem distinct_on_only_for_one_row (cfg : Cfg) (frame : List CId) (laterOk : Bool) (s e : Option Int) (partition : List CId)
+    (sort : List CS) (h : distinctChoice cfg frame laterOk s e partition sort = .distinctOn) :
     cfg.supportsDistinctOn = true ∧ e = some 1 := by
   unfold distinctChoice at h
   dsimp only at h
-  by_cases hc : (s.getD 1 == 1 && e == some 1 && sort.isEmpty && sameElements frame partition) = true
+  by_cases hc : (s.getD 1 == 1 && e == some 1 && sort.isEmpty && (sameElements frame partition && laterOk)) = true
   · rw [if_pos hc] at h; cases h
   · rw [if_neg hc] at h
     by_cases h2 : (cfg.supportsDistinctOn && e == some 1) = true
@@ -478,16 +486,25 @@ theorem distinct_needs_all_columns_counterexample :
     (Model.Rel.step (fun _ => default) { rows := [[.int 1, .int 1], [.int 1, .int 2]] } (.groupTake [0] [] none (some 1))).rows.length = 1 ∧
     (Model.Rel.dedup [[Model.Rel.Value.int 1, .int 1], [.int 1, .int 2]]).length = 2 := by decide
 
-/-- GENUINE DEFECT of the unchanged tree (finding distinct-judged-on-final-frame): the frame the pass compares the
-partition with is the one the WHOLE pipeline ends with, not the one the take sees. For
+/-- The defect repaired by `ea940a9` (finding distinct-judged-on-final-frame, fixed): the pass used to compare the partition
+only with the frame the WHOLE pipeline ends with. For
 `from t | select {a, b} | group {a} (take 1) | filter b > 0 | select {a}` the partition {a} equals the final frame {a}, DISTINCT
-is chosen, the later filter keeps `b` in the SELECT DISTINCT list - and by the previous theorem that keeps two rows where the
-pipeline keeps one. -/
-theorem distinct_judged_on_final_frame_counterexample :
+was chosen, the later filter kept `b` in the SELECT DISTINCT list - and by the previous theorem that keeps two rows where the
+pipeline keeps one. The filter reads column 1, which is not in the partition: the take is now a ROW_NUMBER filter ... -/
+theorem distinct_not_chosen_when_a_later_transform_reads_outside :
     distinct { supportsDistinctOn := false, exceptAll := true, intersectAll := true, wildcards := [] } 2
-      [.from [0, 1], .select [0, 1], .take none (some (.int 1)) [0] [], .filter (.other 0), .select [0]]
-      = some ([.from [0, 1], .select [0, 1], .distinct, .filter (.other 0), .select [0]], 2) ∧
-    selectCols [.from [0, 1], .select [0, 1]] = [0, 1] := by decide
+      [(.from [0, 1], ⟨none, none⟩), (.select [0, 1], ⟨some [0, 1], none⟩), (.take none (some (.int 1)) [0] [], ⟨some [0], none⟩),
+       (.filter (.other 0), ⟨some [1], none⟩), (.select [0], ⟨some [0], none⟩)]
+      = some ([.from [0, 1], .select [0, 1], .rowNumber 2 .rowsAll [0] [], .filter (.lte (.col 2) (.int 1)), .filter (.other 0), .select [0]], 3) := by
+  decide
+
+/-- ... and stays DISTINCT when the later transforms stay inside the partition (a sort by the key, a derive from it) -/
+example :
+    distinct { supportsDistinctOn := false, exceptAll := true, intersectAll := true, wildcards := [] } 2
+      [(.from [0, 1], ⟨none, none⟩), (.select [0, 1], ⟨some [0, 1], none⟩), (.take none (some (.int 1)) [0] [], ⟨some [0], none⟩),
+       (.other 7, ⟨some [5, 0], some 5⟩), (.other 8, ⟨some [5], none⟩), (.select [0], ⟨some [0], none⟩)]
+      = some ([.from [0, 1], .select [0, 1], .distinct, .other 7, .other 8, .select [0]], 2) := by
+  decide
 
 /-- the ROW_NUMBER filter is the positional take: `take lo..hi` keeps exactly the rows whose 1-based position in the
 (sorted) group satisfies the range condition, in their order - lists of any length, any bounds -/
@@ -526,10 +543,11 @@ theorem range_filter_means_the_range (rn : CId) (s e : Option Int) (n : Int) :
         simp [rangeFilter, this, evalRange]
 
 /-- a pipeline without partitioned takes passes `distinct` unchanged, and no column id is drawn -/
-theorem distinct_leaves_plain_pipelines (cfg : Cfg) (next : CId) (p : List Model.Preprocess.Tr)
-    (h : ∀ t ∈ p, ∀ s e pa so, t = Model.Preprocess.Tr.take s e pa so → pa = []) :
-    distinct cfg next p = some (p, next) :=
-  distinctGo_no_partition cfg (selectCols p) next p h
+theorem distinct_leaves_plain_pipelines (cfg : Cfg) (next : CId) (p : List (Model.Preprocess.Tr × Info))
+    (h : ∀ t ∈ p, ∀ s e pa so, t.1 = Model.Preprocess.Tr.take s e pa so → pa = []) :
+    distinct cfg next p = some (p.map (·.1), next) := by
+  unfold distinct
+  exact distinctGo_no_partition cfg _ next p h
 
 /-- after `union` no Append is left -/
 theorem union_eliminates_append (p : List Model.Preprocess.Tr) : ∀ t ∈ union p, isAppend t = false := union_no_append p
